@@ -261,7 +261,157 @@ def r04_5(ctx):
         ctx.ob("R04.5", "suspend-only-on-empty-acquisition/%s" % which, not bad, "every suspending path ends in an acquisition primitive answering None" if not bad else "states %s suspend although input may be available" % sorted(set(bad))[:5])
 
 
+def r04_7(ctx):
+    """tree-builder transfers that do not consume the token (Reprocess / ReprocessForeign results and self.step delegations):
+    reviewed inventory + no cycle for any single token through transfers that leave the stack of open elements alone"""
+    from lib import dispatchcmp as dc
+    TBA = "html_tree_builder"
+    cur = nf_common.area_current(ctx, TBA)
+    inv = set()
+    step_cells = None
+    for k, v in cur.items():
+        if v["kind"] != "paths":
+            if v["kind"] == "tree" and "Reprocess" in v.get("text", ""):
+                inv.add((k.split("::")[-1], "-", "Reprocess", "?"))
+            continue
+        fn = k.split("::")[-1]
+        is_step = k.endswith("rules::TreeBuilder<Handle,Sink>::step")
+        if is_step:
+            step_cells = v["cells"]
+        for c in v["cells"]:
+            r = str(c["ret"])
+            modes = [g[len("p1 matches "):] for g, b in c["guards"].items() if b and g.startswith("p1 matches ")]
+            mode = modes[0] if (modes and is_step) else "-"
+            m = re.match(r"(Reprocess(?:Foreign)?)\((.*)\)$", r)
+            if m:
+                inv.add((fn, mode, m.group(1), m.group(2).split(",")[0] if m.group(1) == "Reprocess" else "foreign"))
+            for a in c["actions"]:
+                if a[0] in ("self.step", "self.step_foreign"):
+                    inv.add((fn, mode, a[0], str(a[1][0]) if a[1] else ""))
+    ref = {tuple(x) for x in json.load(open(os.path.join(os.path.dirname(REF), "reprocess_sites.json")))["sites"]}
+    for e in sorted(inv):
+        ok = e in ref
+        ctx.ob("R04.7", "non-consuming-transfer/%s/%s/%s->%s" % e, ok, "reviewed" if ok else
+               "a new way to hand the same token on without consuming it (%s in mode %s: %s to %s): termination of process_to_completion must be re-reviewed" % e, "html5ever tree_builder " + e[0])
+    ctx.floor("R04.7", "transfers", len(inv), 55)
+    if step_cells is None:
+        raise AnchorMissing("TreeBuilder::step has no path normal form")
+    # per-token graph
+    modes = set()
+    for c in step_cells:
+        for g in c["guards"]:
+            if g.startswith("p1 matches "):
+                modes.update(a.strip() for a in g[len("p1 matches "):].split("|"))
+    universe = dc.names_in(step_cells) | {dc.FRESH}
+    toks = [("StartTag", n) for n in sorted(universe)] + [("EndTag", n) for n in sorted(universe)] + [(k, "") for k in dc.NON_TAG_KINDS]
+    POPS = ("self.pop", "self.pop_until", "self.pop_until_named", "self.pop_until_current", "self.expect_to_close", "self.remove_from_stack", "self.close_the_cell", "self.generate_implied_end")
+    n = 0
+    for kind, name in toks:
+        edges = defaultdict(set)
+        for c in step_cells:
+            ms = None
+            ok = True
+            for g, v in c["guards"].items():
+                if g.startswith("p1 matches "):
+                    if v:
+                        ms = [a.strip() for a in g[len("p1 matches "):].split("|")]
+                    continue
+                d = dc.decide(g, None, kind, name)
+                if d is not None and d != v:
+                    ok = False
+                    break
+            if not ok or not ms:
+                continue
+            acts = [a[0] for a in c["actions"]]
+            shrinking = any(a.startswith(POPS) for a in acts)
+            targets = []
+            m = re.match(r"Reprocess\((.*?),p2\)$", str(c["ret"]))
+            if m:
+                targets.append(m.group(1))
+            for a in c["actions"]:
+                if a[0] == "self.step" and len(a[1]) == 2 and str(a[1][1]) == "p2":
+                    targets.append(str(a[1][0]))
+            for t in targets:
+                if shrinking:
+                    continue
+                if t in modes:
+                    tg = [t]
+                elif "orig_mode" in t:
+                    tg = [x for x in modes if x not in ("Text", "InTableText")]
+                else:
+                    tg = list(modes)
+                for src in ms:
+                    edges[src].update(tg)
+        n += 1
+        # cycle search
+        color = {}
+        cyc = None
+
+        def dfs(u, path):
+            nonlocal cyc
+            color[u] = 1
+            for w in sorted(edges.get(u, ())):
+                if cyc:
+                    return
+                if color.get(w) == 1:
+                    cyc = path[path.index(w):] + [w] if w in path else [u, w]
+                    return
+                if w not in color:
+                    dfs(w, path + [w])
+            color[u] = 2
+
+        for u in sorted(edges):
+            if u not in color and not cyc:
+                dfs(u, [u])
+        tokname = ("<%s%s>" % ("/" if kind == "EndTag" else "", name)) if name else kind
+        if cyc:
+            ctx.ob("R04.7", "transfer-cycle/%s" % tokname, False, "the token %s can be handed round %s without being consumed and without the stack of open elements shrinking" % (tokname, " -> ".join(cyc)), "html5ever tree_builder rules.rs step")
+    ctx.ob("R04.7", "no-transfer-cycle", True, "%d token classes x %d modes: the graph of non-consuming, non-popping transfers is acyclic" % (n, len(modes)))
+    ctx.floor("R04.7", "token-classes", n, 200)
+
+
+def r04_8(ctx):
+    """XML tree builder: 'in phase Main the stack of open elements is not empty' (what current_node()'s expect relies on) is
+    preserved: Start enters Main together with a push; every Main path that pops more than it pushed re-tests no_open_elems()
+    after its last pop and leaves Main when it holds"""
+    key, pcs = nfq.cells(ctx, "xml_tree_builder", "XmlTreeBuilder<Handle,Sink>::step")
+    n = 0
+    POP = ("self.close_tag", "self.pop")
+    PUSH = ("self.insert_tag", "self.add_to_open_elems")
+    for pc in nfq.feasible(pcs):
+        g = pc["guards"]
+        acts = [(a, [str(x) for x in args]) for a, args in pc["actions"]]
+        names = [a for a, _ in acts]
+        if g.get("p1 matches Start") is True:
+            if any(a == "set self.phase" and args == ["Main"] for a, args in acts):
+                n += 1
+                ok = any(a in PUSH for a in names)
+                ctx.ob("R04.8", "enters-main-with-an-open-element", ok, "Start switches to Main on the path that pushes the root element" if ok else "Start switches to Main without pushing an element: current_node() panics on the next token", "xml5ever tree_builder step Start")
+            continue
+        if g.get("p1 matches Main") is not True:
+            continue
+        pops = [i for i, a in enumerate(names) if a in POP]
+        pushes = [i for i, a in enumerate(names) if a in PUSH]
+        if not pops or len(pushes) >= len(pops):
+            continue
+        n += 1
+        tests = [i for i, a in enumerate(names) if a == "self.no_open_elems"]
+        tested = bool(tests) and tests[-1] > pops[-1] and "self.no_open_elems()" in g
+        ends = any(a == "set self.phase" and args == ["End"] and i > pops[-1] for i, (a, args) in enumerate(acts))
+        ok = tested and (ends if g.get("self.no_open_elems()") else True)
+        kind = next((k.split("kind:")[1].split(",")[0].rstrip("})") for k, v in g.items() if v and "p2 matches Tag(" in k), "?")
+        ctx.ob("R04.8", "main-pop-retests-empty-stack/%s/%s" % (kind, "script" if any(v and "atom:script" in k for k, v in g.items()) else "other"), ok,
+               "after the last pop no_open_elems() is tested and Main is left when it holds" if ok else
+               "a path of phase Main pops an element and returns without testing whether the stack became empty: the next token finds phase Main with no current element (expect panics)",
+               "xml5ever tree_builder step Main")
+    ctx.floor("R04.8", "xml-main-invariant-paths", n, 6)
+
+
 def run(ctx):
+    ctx.rule("R04.8", "xml5ever: phase Main implies a non-empty stack of open elements (entered with a push; every net pop re-tests no_open_elems and leaves Main)")
+    ctx.guard("R04.8", "xml-main", lambda: r04_8(ctx))
+    ctx.rule("R04.7", "tree-builder transfers that do not consume the token: reviewed inventory; per token class, no cycle of transfers that leave the stack alone")
+    ctx.guard("R04.7", "transfers", lambda: r04_7(ctx))
     ctx.rule("R04.1", "per function and kind, the explicit panic sites (panic/unwrap/expect/assert/bounds) are within the reviewed inventory")
     ctx.rule("R04.2", "orig_mode saved before Text/InTableText; template_modes popped only under an open template; pop_until_current sets contain html; tokenizer-switching results only for tag tokens")
     ctx.rule("R04.3", "no cycle of non-consuming transitions in the HTML and XML tokenizers; eof_step acyclic ending in one EOF leaf; char-ref Progress consumes or advances")
